@@ -101,12 +101,21 @@ def run_property(cfg, tier, seed):
             discharged = 0
         # 3. executable model + harness
         exe_model = None
+        stale_model = None
         if gen_ok:
             ok, out, dt = core.coq_build(["Model/Run.vo"])
             if not ok:
                 f, ln = classify_error_file(out)
-                problems.append(("model", f"the executable model no longer builds (first error in {f}:{ln})", out[-3000:]))
-                model_ok = False
+                stale = os.path.join(core.BUILD, "ocaml", "vv_eval")
+                if f and f.startswith("Gen/") and not core.depends_on(prop_file, f) and os.path.exists(stale):
+                    # rs2v rejected a part of the source that this property's theorems do not depend on (they were just
+                    # re-checked): the evaluator built from the last translatable source keeps serving the
+                    # correspondence - a change of behaviour still shows up as a difference or a falsified predicate
+                    log(f"note: {f} is rejected by rs2v; {prop_file} does not depend on it - the model evaluator of the previous run is used")
+                    stale_model = stale
+                else:
+                    problems.append(("model", f"the executable model no longer builds (first error in {f}:{ln})", out[-3000:]))
+                    model_ok = False
             else:
                 try:
                     exe_model = core.build_model_eval()
@@ -120,6 +129,8 @@ def run_property(cfg, tier, seed):
             exe_impl = core.build_harness()
         except CheckFailure as e:
             problems.append((e.stage, e.what, e.detail))
+        if stale_model is not None:
+            exe_model = stale_model
         # a model evaluator from a previous run can still serve the Spec side of the search
         if exe_model is None:
             stale = os.path.join(core.BUILD, "ocaml", "vv_eval")
